@@ -14,6 +14,7 @@ import datetime as dt
 import json
 import random
 import re
+import zoneinfo
 from zoneinfo import ZoneInfo
 
 from harness import common as C
@@ -191,14 +192,14 @@ def pat_expr(engine, po):
             return f'VPattern({args})'
         if tz == 'UTC':
             return f'VUTCPattern({args})'
-        return f'VAwarePattern({tz!r}, {args})'
+        return f'VAwarePattern({tz_src(tz)}, {args})'
     k = po['kind']
     nm = {'date': 'Date', 'time': 'Time', 'datetime': 'DateTime'}[k]
     if tz is None:
         return f'V{nm}Pattern[{args}]' if len(ps) > 1 else f'V{nm}Pattern[{ps[0]!r}]'
     if tz == 'UTC':
         return f'VUTC{nm}Pattern[{args}]' if len(ps) > 1 else f'VUTC{nm}Pattern[{ps[0]!r}]'
-    return f'VAware{nm}Pattern[{tz!r}, {args}]'
+    return f'VAware{nm}Pattern[{tz_src(tz)}, {args}]'
 
 
 def ty_src(t, prefix=''):
@@ -251,6 +252,8 @@ from dataclass_wizard.v1 import (Pattern as VPattern, AwarePattern as VAwarePatt
     UTCTimePattern as VUTCTimePattern, UTCDateTimePattern as VUTCDateTimePattern)
 from dataclass_wizard.v1 import Alias as VAlias
 from harness.props.c17 import MyDate, MyTime, MyDT
+from zoneinfo import ZoneInfo as _ZoneInfo
+from datetime import timezone as _timezone, timedelta as _timedelta
 '''
 
 # DIMENSION how the field itself is declared next to its (Annotated / subscripted) pattern: the pattern has to be found whatever field
@@ -336,6 +339,35 @@ def hazards(cm):
     if any(len(v) > 1 for v in names.values()):
         hz.add(K_NAME)
     return hz
+
+
+# DIMENSION the declared time ZONE of the v1 Aware variants.  A zone descriptor (`po['tz']`) is None, 'UTC' (the UTC... variants), an IANA
+# key given as a string, ['zoneinfo', key] (a `ZoneInfo` object given instead of its key) or ['fixed', seconds, name | None] (a fixed-offset
+# `datetime.timezone` object); the last two only through the Aware forms, which take any `tzinfo`.
+def tz_obj(tz):
+    """the tzinfo object the property demands on the loaded value"""
+    if tz is None:
+        return None
+    if isinstance(tz, str):
+        return ZoneInfo(tz)
+    if tz[0] == 'zoneinfo':
+        return ZoneInfo(tz[1])
+    td = dt.timedelta(seconds=tz[1])
+    return dt.timezone(td) if tz[2] is None else dt.timezone(td, tz[2])
+
+
+def tz_src(tz):
+    """source text of the zone argument of an Aware form"""
+    if isinstance(tz, str):
+        return repr(tz)
+    if tz[0] == 'zoneinfo':
+        return f'_ZoneInfo({tz[1]!r})'
+    return f'_timezone(_timedelta(seconds={tz[1]}))' if tz[2] is None else f'_timezone(_timedelta(seconds={tz[1]}), {tz[2]!r})'
+
+
+def tz_model(tz):
+    """the zone in the model's universe (`TZ`: a named zone is opaque, a fixed offset is its microseconds)"""
+    return None if tz is None else enc_tz(tz_obj(tz))
 
 
 def is_aware(po):
@@ -585,14 +617,77 @@ def gen_helper_class(rng):
     return cm, 'helper'
 
 
+# DIMENSION the time zone declared with an Aware variant (its own seeded stream): whatever legal zone is declared, the four clauses hold --
+# a value formatted with a declared pattern loads with THAT zone attached, ISO-8601 text loads (zone attached), the dump is ISO-8601 and
+# loads back, a string matching neither is rejected naming the patterns.  The zone is drawn from the whole IANA table of the running
+# system, by the lexical class of its key ('-', '+', digits, several '/', no '/', plain Area/City: America/Port-au-Prince, Etc/GMT+5,
+# America/Argentina/Buenos_Aires, GB-Eire, EST5EDT ...), given as the key or as a `ZoneInfo` object, or is a fixed-offset
+# `datetime.timezone` (whole hours / minutes / odd seconds, either sign, with and without a name of its own); the pattern object is the
+# annotation itself (`AwareTimePattern[zone, ..]`) or sits in `Annotated[T, AwarePattern(zone, ..)]` (T possibly a user subclass), in every
+# position (bare, list, tuple, dict keys / values, Optional, NamedTuple / TypedDict / Union members), alone or next to further zoned fields
+# (same zone with other patterns, same patterns with another zone).  The zone is data for the loader: nothing about its spelling may
+# reach the generated code.
+_ZONE_CLASSES = None
+
+
+def zone_classes():
+    global _ZONE_CLASSES
+    if _ZONE_CLASSES is None:
+        keys = sorted(k for k in zoneinfo.available_timezones() if k not in ('localtime', 'Factory', 'UTC'))
+        cl = {'dash': [k for k in keys if '-' in k], 'plus': [k for k in keys if '+' in k],
+              'digit': [k for k in keys if any(c.isdigit() for c in k)], 'deep': [k for k in keys if k.count('/') >= 2],
+              'flat': [k for k in keys if '/' not in k], 'plain': [k for k in keys if re.fullmatch(r'[A-Za-z]+/[A-Za-z]+', k)],
+              'any': keys}
+        _ZONE_CLASSES = {c: v for c, v in cl.items() if v}
+    return _ZONE_CLASSES
+
+
+def gen_zone(rng):
+    r = rng.random()
+    if r < 0.62:
+        cl = zone_classes()
+        key = rng.choice(cl[rng.choice(sorted(cl))])
+        return key if rng.random() < 0.6 else ['zoneinfo', key]
+    if r < 0.66:
+        return ['zoneinfo', 'UTC']
+    secs = rng.choice([0, 19800, -18000, 3600, 45900, -43200, 50400, -12600, 60 * rng.randint(-1439, 1439), rng.randint(-86399, 86399)])
+    return ['fixed', secs, rng.choice([None, None, None, 'CET', 'X-1', 'UTC+05:30', 'local time', "o'clock"])]
+
+
+def gen_zone_class(rng):
+    if rng.random() < 0.25:
+        # a zoned pattern on / in a type whose loader is a generated function of its own
+        while True:
+            cm, _ = gen_helper_class(rng)
+            if cm['engine'] == 'v1' and cm['pats'][0]['kind'] != 'date':
+                break
+        cm['pats'][0]['tz'] = gen_zone(rng)
+        return cm, 'zone'
+    cm = {'engine': 'v1', 'pats': [], 'fields': []}
+    for _ in range(rng.choice([1, 1, 2, 3])):
+        kind = rng.choice(['time', 'datetime'])
+        form = rng.choice(['sub', 'sub', 'ann'])
+        sub = form == 'ann' and rng.random() < 0.3
+        pid = new_pat(rng, cm, kind, form, tz_ok=False)
+        po, r = cm['pats'][pid], rng.random()
+        if pid > 0 and r < 0.2:
+            po['tz'] = cm['pats'][rng.randrange(pid)]['tz']                                  # the same zone again
+        elif pid > 0 and r < 0.4 and cm['pats'][pid - 1]['kind'] == kind:
+            po['patterns'], po['tz'] = list(cm['pats'][pid - 1]['patterns']), gen_zone(rng)       # the same patterns under another zone
+        else:
+            po['tz'] = gen_zone(rng)
+        add_field(rng, cm, kind, sub, form, container=rng.random() < 0.5, pid=pid)
+    return cm, 'zone'
+
+
 def gen_family_class(rng, j):
     return gen_helper_class(rng) if j % 2 == 0 else gen_iso_shaped_class(rng)
 
 
 # --------------------------------------------------------------------------- documents and expectations
 
-def zone_of(tzname):
-    return None if tzname is None else ZoneInfo(tzname)
+def zone_of(tz):
+    return tz_obj(tz)
 
 
 def leaf_spec(cm, kind, sub, pid):
@@ -812,8 +907,8 @@ def iso_z(s):
 
 def std_tables(cm, docs):
     pats = sorted({p for po in cm['pats'] for p in po['patterns']})
-    zones = sorted({po['tz'] for po in cm['pats'] if po['tz']})
-    tzs = [None] + [ZoneInfo(z) for z in zones]
+    zones = {json.dumps(tz_model(po['tz'])): po['tz'] for po in cm['pats'] if po['tz']}
+    tzs = [None] + [tz_obj(zones[z]) for z in sorted(zones)]
     texts, nums = set(), []
     for d in docs:
         strings_of(d, texts)
@@ -1129,7 +1224,8 @@ def run(ctx: C.Ctx):
                 'directed families on their own seeded stream: Annotated / subscripted patterns on NamedTuple, TypedDict and (v1) non-Optional Union '
                 'types, alone and inside / around list, dict, tuple, Optional (the pattern must reach positions loaded by separately generated '
                 'functions); ISO-shaped patterns that read ISO text differently (%Y-%d-%m, %Y-%m-%d %M:%H, %H:%S:%M, a sign ISO reads as an offset) with '
-                'values valid under both readings; '
+                'values valid under both readings; the declared zone of the v1 Aware variants (any key of the IANA table by lexical class: -, +, digits, '
+                'several /, no /; ZoneInfo objects; fixed-offset timezone objects with / without a name) x subscripted / Annotated form x every position; '
                 'per field documents in modes pattern / ISO / mixed / junk / other-pattern / number / null; each through from_dict, to_dict, '
                 'from_dict again on the implementation (oracle: stdlib strptime/fromisoformat readings, truncation law checked) and through the '
                 'Lean model with stdlib-backed tables. Non-trivial = distinct (class model, field, document).')
@@ -1144,14 +1240,15 @@ def run(ctx: C.Ctx):
     ctx.notes['quirks_probed'] = quirks
     ncls = ctx.quick(1200, 12000)
     nfam = ctx.quick(500, 5000)
-    main_rng, frng = rng, random.Random(f'C17:{ctx.seed}:families')
+    nzone = ctx.quick(400, 4000)
+    main_rng, frng, zrng = rng, random.Random(f'C17:{ctx.seed}:families'), random.Random(f'C17:{ctx.seed}:zones')
     reqs, pend = [], []
-    for i in range(ncls + nfam):
+    for i in range(ncls + nfam + nzone):
         if ctx.done(i):
             break
-        # the directed families have their own seeded stream (the main stream is the same with and without them)
-        rng = main_rng if i < ncls else frng
-        cm, cat = gen_class(rng) if i < ncls else gen_family_class(rng, i - ncls)
+        # the directed families have their own seeded streams (the main stream is the same with and without them)
+        rng = main_rng if i < ncls else frng if i < ncls + nfam else zrng
+        cm, cat = gen_class(rng) if i < ncls else gen_family_class(rng, i - ncls) if i < ncls + nfam else gen_zone_class(rng)
         if not cm['fields']:
             continue
         pick_specs(rng, cm)
@@ -1261,7 +1358,7 @@ def run(ctx: C.Ctx):
                 ctx.count('model_skipped:union-or-mixed-typeddict')      # outside the model's type universe: oracle only
                 continue
             req = {'op': 'c17', 'engine': cm['engine'], 'quirks': quirks,
-                   'pats': [{'patterns': po['patterns'], 'tz': (None if po['tz'] is None else ['zone', po['tz']]),
+                   'pats': [{'patterns': po['patterns'], 'tz': tz_model(po['tz']),
                              'aware': is_aware(po)} for po in cm['pats']],
                    'fields': [{'ty': t, 'ann': f['ann']} for t, f in zip(mtys, cm['fields'])],
                    'loads': [[fi, model.enc_j(doc)] for fi, _m, doc, _e in loads],
